@@ -48,9 +48,32 @@ def fstack_passes_operand_through(case):
     return any(isinstance(t, int) for t in _machine(case["comp"], len(case["shapes"])))
 
 
+def tree_cases(start):
+    """f(va(a), vb(b)): a binary ufunc over two leaves with a view on either side, as the view itself and through extraction"""
+    import itertools
+    out = []; n = start
+    for f in ("add", "subtract"):
+        for va, vb in itertools.product(("id", "transpose", "flatten"), repeat=2):
+            sa = [2, 3]; sb = [2, 3]
+            if va == "transpose" and vb != "transpose": sb = [3, 2] if vb == "id" else [2, 3]
+            if vb == "transpose" and va != "transpose": sa = [3, 2] if va == "id" else [2, 3]
+            if va == "flatten" and vb != "flatten": sb = [6] if vb == "id" else [6, 1]
+            if vb == "flatten" and va != "flatten": sa = [6] if va == "id" else [6, 1]
+            for variant in ("view", "extract"):
+                n += 1
+                out.append(dict(id=n, op="tree", shapes=[sa, sb], args=dict(f=f, va=va, vb=vb), variant=variant))
+    return out
+
+
+def tree_extract_over_view(case):
+    """extraction (get_function_composition / get_function_operands + apply) of a binary ufunc one of whose operands is a view - either side"""
+    return case.get("op") == "tree" and case.get("variant") == "extract" and (case["args"]["va"] != "id" or case["args"]["vb"] != "id")
+
+
 def run(tier, seed):
     ck = Check("C14", tier, seed)
     ck.preds["c14_extract_binary_after_view"] = binary_after_view
+    ck.preds["c14_tree_extract_over_view"] = tree_extract_over_view
     quick = tier == "quick"
     maxd = 2 if quick else 3
     ck.add_mc(vlib.tlc_model_check("Functional", "MC_Functional_" + tier, workers=8, timeout=2400))
@@ -74,6 +97,9 @@ def run(tier, seed):
         if cases:
             opslib.run_ops(ck, bins[i], cases, want="all", label=f"fn{i}", nproc=max(2, vlib.NCPU // 3),
                            describe=lambda c, k: f"functional {'*'.join(s['op'] for s in reversed(c['prog']))} [{c['variant']}]: {k}")
+    tc = tree_cases(n); n += len(tc)
+    opslib.run_ops(ck, bins[0], tc, want="all", label="tree", nproc=4, describe=lambda c, k: f"{c['args']['f']}({c['args']['va']}(a), {c['args']['vb']}(b)) [{c['variant']}]: {k}")
+    ck.extra["tree_cases"] = len(tc)
     # combinators: compositions over {negative, square, subtract, where, swap, dup, dig2, bury2} under every named operand split and both groupings
     names = ["u1", "u2", "b", "t", "swap", "dup", "dig2", "bury2"]
     stab = vlib.tlc_generate("GenStack", "GenStack_" + tier)
@@ -93,6 +119,7 @@ def run(tier, seed):
                "for each: the direct view, the composed functor applied to all operands at once, applied one operand at a time (currying), both groupings of the composition "
                "(f3*f2)*f1 / f3*(f2*f1) resp. (f2*f1)(a..) / f2(f1(a),..), the extracted composition applied to the extracted operands, the identity (addresses) and order of the extracted operands, "
                "and the compute graph (leaf count, unique ids, in-degree = listed operands, node accounting); all validated by TLC against the program's denotation; "
+               "binary ufuncs over two leaves with a view (identity / transpose / flatten) on either side, directly and through extraction; "
                "combinators: every composition of <= 2 (thorough 3) functors over {negative, square, subtract, where, swap, dup, dig2, bury2} with arity 1..5 (TLC export from StackMachine.tla), applied all at once, "
                "one operand at a time, (1, n-1), (n-1, 1), (n/2, rest), left and right grouping; the resulting stack (one array or a tuple) must be the stack machine's, interpreted on the operand values")
     ck.exhaustive = quick
@@ -105,6 +132,8 @@ def run(tier, seed):
 
 def replay(rec):
     case = dict(rec["case"]); case["id"] = 1
+    if case.get("op") == "tree":
+        return opslib.replay_ops(rec, "drv_functional", flags=("-DMAXD=2", "-DFIRST_IDX=0", "-O0"))
     if case.get("op") == "fstack":
         names = ["u1", "u2", "b", "t", "swap", "dup", "dig2", "bury2"]
         d = max(2, len(case["comp"])); i = names.index(case["comp"][0])
